@@ -564,9 +564,10 @@ class Automaton:
         ERROR 'Unknown task.' and the requester is disconnected;
       * LOG records are forwarded to the owner while the owner is connected;
       * an ERROR is forwarded to the owner only while the task is open
-        (RUNNING/DONE): `strict_errors`.  The code forwards it for cancelled
-        and delivered tasks too (finding); with strict_errors=False the
-        automaton follows the code."""
+        (RUNNING/DONE); errors of cancelled, delivered or unknown
+        compilations are discarded (`strict_errors`; the code before fix
+        3a23d26 forwarded them - that is reported as
+        `stale-error-forwarded:*` if it comes back)."""
 
     def __init__(self, strict_errors=True):
         self.conn = set()
@@ -778,12 +779,36 @@ class Session:
                             {'history': hist}, True))
         elif not wf:
             self.oracles_on = False
-        diverged = any(not f.sig.startswith('stale-error-forwarded')
+        # what was really written (outgoing thread's code run after the
+        # handler): closes, and puts that reached an open connection
+        pool = list(delivered)
+        written = []
+        for r in cli:
+            if r.startswith('X.'):
+                written.append(r)
+            elif r in pool:
+                pool.remove(r)
+                written.append(r)
+        if self.oracles_on and wf and not raised:
+            lost = [r for r in cli if not r.startswith('X.')
+                    and r not in written]
+            if lost:
+                self.findings.append(Finding(
+                    f'reply-never-written:{k[0]}:{st_before}',
+                    f'{ev} (task state {st_before}): the server put {lost} '
+                    'for the client and then closed the connection in the '
+                    'same handler; send_outgoing skips closed connections, '
+                    'so the reply is never written (with the real outgoing '
+                    'thread: 0 of 2000 runs)',
+                    {'history': hist, 'put': cli, 'written': written}, True))
+        diverged = any(not f.sig.startswith(('stale-error-forwarded',
+                                             'reply-never-written'))
                        for f in self.findings[nfind:])
         self.lines.append(ev)
         self.records.append({
             'ev': ev, 'cli': ' '.join(cli), 'down': ' '.join(down),
             'state': state, 'raised': raised, 'wf': wf, 'hist': hist,
+            'written': ' '.join(written),
             'oracles': self.oracles_on,
             'abs': {t: auto.state_of(t) for t in auto.task}
             if self.oracles_on else None})
@@ -840,6 +865,10 @@ class Session:
                     problems.append(
                         f'client-visible model=[{d.get("out")}] '
                         f'impl=[{rec["cli"]}]')
+                if d.get('written', '') != rec['written']:
+                    problems.append(
+                        f'written model=[{d.get("written")}] '
+                        f'impl=[{rec["written"]}]')
                 if d.get('down', '') != rec['down']:
                     problems.append(f'down model=[{d.get("down")}] '
                                     f'impl=[{rec["down"]}]')
@@ -1565,13 +1594,15 @@ def client_checks(ck_rng, thorough):
                     f'{cap.got}, the property requires {exp} with logs '
                     f'{logs_before}', {'sequence': line}, True))
 
-    # (1b) `_recv_log_error_until_empty` as it is (incl. the known defect)
-    for k in range(0, 4):
+    # (1b) `_recv_log_error_until_empty`: pending LOGs are passed through,
+    # a pending ERROR raises, anything else is a protocol error
+    for k in range(0, 5 if thorough else 4):
         for seq in it.product(toks, repeat=k):
             c = FakeConn('peer', [])
             comp = new_client_compiler(c)
             for tok, x in seq:
                 c.inbox.append(wire(tok, x))
+            del cap.got[:]
             try:
                 comp._recv_log_error_until_empty()
                 got = 'clean'
@@ -1584,10 +1615,77 @@ def client_checks(ck_rng, thorough):
                 got = 'attributeError'
             except Exception as e:
                 got = f'crashed {type(e).__name__}'
-            lines.append('predrain ' + ' '.join(
-                tok if x is None else f'{tok} {x}' for tok, x in seq))
+            line = 'predrain ' + ' '.join(
+                tok if x is None else f'{tok} {x}' for tok, x in seq)
+            lines.append(line)
             impl.append(got)
             stats['predrain_sequences'] += 1
+            logs_before, exp = [], 'clean'
+            for tok, x in seq:
+                if tok == 'L':
+                    logs_before.append(f'log-{x}')
+                elif tok == 'E':
+                    exp = f'raised {x}'
+                    break
+                else:
+                    exp = 'unexpected'
+                    break
+            if got != exp or cap.got != logs_before:
+                findings.append(Finding(
+                    'client-predrain:' + got.split()[0],
+                    f'_recv_log_error_until_empty on {line}: got {got} with '
+                    f'logs {cap.got}, the property requires {exp} with logs '
+                    f'{logs_before} (pending LOG records must not make the '
+                    'next call fail)', {'sequence': line}, True))
+
+    # (1c) `_send_recv` as a whole: pending messages, then the arriving ones
+    class Peer0(FakeConn):
+        __slots__ = ('replies',)
+
+        def send(self, m):
+            self.sent.append(m)
+            self.inbox.extend(self.replies)
+            self.replies = []
+    short = [('L', 3), ('E', 5), ('R', 6), ('S', 'done')]
+    for kp in range(0, 3):
+        for pend in it.product(short, repeat=kp):
+            for ka in range(0, 3):
+                for arr in it.product(short, repeat=ka):
+                    c = Peer0('peer', [])
+                    c.replies = [wire(tok, x) for tok, x in arr]
+                    for tok, x in pend:
+                        c.inbox.append(wire(tok, x))
+                    comp = new_client_compiler(c)
+                    try:
+                        msg, payload = comp._send_recv(M.STATUS, uuid.uuid4())
+                        got = 'returned ' + (
+                            f'R.0.{payload[1]}' if msg == M.RESULT else
+                            f'S.0.{payload.name.lower()}')
+                    except RuntimeError as e:
+                        cause = e.__cause__
+                        t = str(cause)
+                        if isinstance(cause, EOFError):
+                            got = 'blocked'
+                        elif isinstance(cause, RuntimeError) \
+                                and t.startswith('boom-'):
+                            got = f'wrapped {t.split("-")[1]}'
+                        elif isinstance(cause, RuntimeError) \
+                                and 'Unexpected message' in t:
+                            got = 'wrapped -'
+                        else:
+                            got = f'crashed {type(cause).__name__}'
+                        if not str(e).startswith(
+                                'Server connection unexpectedly closed'):
+                            got += ' unwrapped'
+                    except Exception as e:
+                        got = f'crashed {type(e).__name__}'
+
+                    def fmt(seq):
+                        return ' '.join(tok if x is None else f'{tok} {x}'
+                                        for tok, x in seq)
+                    lines.append(f'sendrecv {fmt(pend)} / {fmt(arr)}')
+                    impl.append(got)
+                    stats['sendrecv_cases'] += 1
 
     # (2) the API calls
     class Peer(FakeConn):
@@ -1642,8 +1740,17 @@ def client_checks(ck_rng, thorough):
                     f'Compiler.{method}: ERROR reply did not surface as a '
                     f'RuntimeError carrying the message: {o[0]} {o[1]!r}',
                     {'method': method}, True))
-            elif (ORIGINAL + method) not in str(o[1]):
+            elif (ORIGINAL + method) not in str(o[1]) and nlogs == 0:
                 stats['error_text_only_in_cause_chain'] += 1
+                findings.append(Finding(
+                    f'client-error-text-only-in-cause:{method}',
+                    f'Compiler.{method}: the ERROR reply of the runtime '
+                    'surfaces as RuntimeError whose own text (str(e), '
+                    f'e.args) is {str(o[1])!r}; the original message is '
+                    'only reachable as e.__cause__ (and the connection is '
+                    'dropped although the server did not close it)',
+                    {'method': method, 'str_e': str(o[1]),
+                     'cause': repr(o[1].__cause__)[:200]}, True))
         # a reply of the wrong kind is not returned as a value
         wrong = reply_for['cancel' if method != 'cancel' else 'status']
         o = call(method, [wrong])
@@ -1690,9 +1797,85 @@ def client_checks(ck_rng, thorough):
             findings.append(Finding(
                 f'client-stale-error-lost:{method}', 'stale ERROR lost',
                 {'method': method}, True))
+        elif method == 'submit' and (ORIGINAL + 'stale') not in str(o[1]):
+            findings.append(Finding(
+                'client-error-text-only-in-cause:submit',
+                'Compiler.submit: a pending ERROR surfaces as RuntimeError '
+                f'whose own text is {str(o[1])!r}; the original message is '
+                'only reachable as e.__cause__',
+                {'method': 'submit', 'str_e': str(o[1])}, True))
     logger.removeHandler(cap)
     logging.disable(logging.CRITICAL)
     return lines, impl, findings, stats
+
+
+# ================================================ the outgoing thread's code
+def outgoing_checks():
+    """The real `send_outgoing` when a client has vanished.  Real sockets
+    (measured): after the peer closed, the second `send` raises
+    BrokenPipeError; after a close with unread data the first raises
+    ConnectionResetError.  Returns (driver lines, impl, findings)."""
+    from bqskit.runtime.message import RuntimeMessage as M
+    findings, lines, impl = [], [], []
+    excs = {'eof': EOFError(), 'reset': ConnectionResetError(104, 'reset'),
+            'brokenpipe': BrokenPipeError(32, 'Broken pipe'),
+            'oserror': OSError(9, 'Bad file descriptor')}
+    for name, exc in excs.items():
+        sim = Sim(2)
+        r = Runner(sim)
+        for ev in ('connect 0', 'connect 1', 'submit 0 0', 'submit 1 1'):
+            r.apply(ev)
+        # client 0 is gone; a LOG of its task is forwarded to it
+        sim.conns[0].send_error = exc
+        sim.s.outgoing.put((sim.conns[0], M.LOG, 'log-4'))
+        survived = True
+        try:
+            sim.cls.send_outgoing(sim.s)
+        except Drained:
+            pass
+        except BaseException as e:     # leaves `while True`: the thread dies
+            survived = False
+            died_with = type(e).__name__
+        lines.append(f'outgoing {name}')
+        impl.append('true' if survived else 'false')
+        hist = ['connect 0', 'connect 1', 'submit 0 0', 'submit 1 1',
+                f'<client 0 vanishes: send raises {type(exc).__name__}>',
+                'log 0 4', 'status 1 1']
+        if not survived and name in ('eof', 'reset', 'brokenpipe'):
+            # direct oracle: another client's next request is still answered
+            sim.s.outgoing.items.clear()
+            findings.append(Finding(
+                f'outgoing-thread-dies:{died_with}',
+                f'a client vanished and `conn.send` raised {died_with} in '
+                'ServerBase.send_outgoing: only EOFError and '
+                'ConnectionResetError are caught, the exception leaves the '
+                '`while True` loop, the outgoing thread ends while '
+                '`running` stays True - from then on nothing is ever written '
+                'to any client or employee (every client hangs)',
+                {'scenario': hist, 'running_after': bool(sim.s.running)},
+                True))
+        if survived and name == 'reset':
+            # the outgoing thread ran handle_disconnect(conn); the main thread
+            # then handles the EOF of the same connection (it was already in
+            # the batch `select` returned)
+            nse = len(sim.system_errors)
+            sim.deliver(sim.conns[0], sim.D.CLIENT, EOFError)
+            if len(sim.system_errors) > nse or not sim.s.running:
+                err = (sim.system_errors or ['?'])[-1].strip()
+                exc_name = err.splitlines()[-1].split(':')[0]
+                findings.append(Finding(
+                    f'double-disconnect:{exc_name}',
+                    'ConnectionResetError in send_outgoing makes the OUTGOING '
+                    'thread run handle_disconnect(conn); when the main thread '
+                    'then processes the EOF of the same connection (already '
+                    f'selected) the run loop raises {exc_name} and shuts the '
+                    'whole server down (forced interleaving)',
+                    {'scenario': hist[:4] + [
+                        '<client 0 closes with unread data: send raises '
+                        'ConnectionResetError>', 'log 0 4',
+                        '<main thread: EOF on client 0>'],
+                     'error': err[-300:]}, True))
+    return lines, impl, findings
 
 
 # ====================================================== attached server (small)
@@ -1709,7 +1892,7 @@ def attached_checks():
         sim = Sim(2, kind='attached')
         r = Runner(sim)
         sim.new_client(0)
-        auto = Automaton(strict_errors=False)
+        auto = Automaton(strict_errors=True)
         auto.expected('connect 0')
         for i, ev in enumerate(hist):
             if not auto.wf(ev):
@@ -1836,7 +2019,7 @@ def run(ck: Check):
             all_findings.extend(fs)
 
     evs = alphabet(2, 2, 2)
-    depth = 5 if thorough else 4
+    depth = 5 if thorough else 3
     prefixes = [[a, b] for a in FIRST for b in evs]
     ck.rng.shuffle(prefixes)
     ngroups = 4 * ncpu if thorough else ncpu
@@ -1849,8 +2032,8 @@ def run(ck: Check):
         djobs += [(f, 7, 2, 3, 3) for f in alphabet(2, 3, 3)]
         djobs += [(f, 5, 3, 3, 3) for f in alphabet(3, 3, 3)]
     else:
-        djobs = [(None, 14, 2, 2, 2), (None, 6, 3, 2, 2)]
-    nrand = 100000 if thorough else 4000
+        djobs = [(None, 14, 2, 2, 2), (None, 5, 3, 2, 2)]
+    nrand = 100000 if thorough else 2500
     per = 250
     rjobs = [(ck.rng.randrange(1 << 30), per, 30, False, True)
              for _ in range(nrand // per)]
@@ -1954,6 +2137,11 @@ def run(ck: Check):
     for f in cfind:
         all_findings.append((f.sig, f.what, f.replay, f.found))
     stats.update(cstats)
+    olines, oimpl, ofind = outgoing_checks()
+    for f in ofind:
+        all_findings.append((f.sig, f.what, f.replay, f.found))
+    clines = clines + olines
+    cimpl = cimpl + oimpl
     outs = ck.driver('server', blines + clines)
     for (exp, key), line, got in zip(bexp, blines, outs[:len(blines)]):
         ck.count(('bubble-model', line))
